@@ -466,6 +466,11 @@ class GroupCoordinator:
                 else:
                     ps.append({"partition": p, "offset": o[0], "metadata": o[1] or "", "error": 0})
                     given["%s:%d" % (t["topic"], p)] = o[0]
+            unk = ctx.arrival.extra.get("unknown_partition")
+            if unk and unk[0] == t["topic"] and any(x["partition"] == unk[1] for x in ps):
+                ps = ([{"partition": unk[1], "offset": -1, "metadata": "", "error": 3}] +
+                      [x for x in ps if x["partition"] != unk[1]])
+                given["%s:%d" % unk] = -1
             out.append({"topic": t["topic"], "partitions": ps})
         r = {"topics": out}
         if ver >= 2:
